@@ -17,6 +17,58 @@ import (
 	"verifextract/ex"
 )
 
+// replyLit: a Go string literal as a Lean list of its UTF-8 bytes
+func replyLit(e ast.Expr) (string, bool) {
+	b, ok := e.(*ast.BasicLit)
+	if !ok || b.Kind != token.STRING {
+		return "", false
+	}
+	v, err := strconv.Unquote(b.Value)
+	if err != nil {
+		return "", false
+	}
+	parts := make([]string, 0, len(v))
+	for _, c := range []byte(v) {
+		parts = append(parts, strconv.Itoa(int(c)))
+	}
+	return "[" + strings.Join(parts, ", ") + "]", true
+}
+
+// replyFmt: a format literal whose verbs are all plain %d, one per argument, with the arguments in the expression language
+func (t *btr) replyFmt(f ast.Expr, args []ast.Expr) (string, string, bool) {
+	b, ok := f.(*ast.BasicLit)
+	if !ok || b.Kind != token.STRING {
+		return "", "", false
+	}
+	v, err := strconv.Unquote(b.Value)
+	if err != nil {
+		return "", "", false
+	}
+	n := 0
+	for i := 0; i < len(v); i++ {
+		if v[i] == '%' {
+			if i+1 >= len(v) || v[i+1] != 'd' {
+				return "", "", false
+			}
+			n++
+			i++
+		}
+	}
+	if n != len(args) {
+		return "", "", false
+	}
+	xs := make([]string, 0, len(args))
+	for _, a := range args {
+		x, ok := t.expr(a)
+		if !ok {
+			return "", "", false
+		}
+		xs = append(xs, x)
+	}
+	lit, _ := replyLit(f)
+	return lit, "[" + strings.Join(xs, ", ") + "]", true
+}
+
 type btr struct {
 	c           *ex.Ctx
 	locals      map[string]int
@@ -959,7 +1011,7 @@ func (t *btr) assign(s *ast.AssignStmt) string {
 			}
 			if t.hostVar != "" && t.respVar == "" && strings.HasPrefix(r, "fmt.Sprintf(\"") {
 				t.respVar = id.Name
-				return ".reply"
+				return "(.reply .opaque)"
 			}
 		}
 	}
@@ -975,20 +1027,12 @@ func (t *btr) assign(s *ast.AssignStmt) string {
 			if _, isLocal := t.locals[id.Name]; !isLocal && t.loopIndex(id.Name) < 0 {
 				if t.src(rhs) == "strings.Builder{}" {
 					t.respVar = id.Name
-					return ".reply"
+					return "(.reply .newBuilder)"
 				}
 				if call, ok := rhs.(*ast.CallExpr); ok && t.src(call.Fun) == "fmt.Sprintf" && len(call.Args) >= 1 {
-					if _, isStr := call.Args[0].(*ast.BasicLit); isStr {
-						good := true
-						for _, a := range call.Args[1:] {
-							if _, ok := t.expr(a); !ok {
-								good = false
-							}
-						}
-						if good {
-							t.respVar = id.Name
-							return ".reply"
-						}
+					if f, xs, good := t.replyFmt(call.Args[0], call.Args[1:]); good {
+						t.respVar = id.Name
+						return "(.reply (.sprintf " + f + " " + xs + "))"
 					}
 				}
 			}
@@ -1669,7 +1713,7 @@ func (t *btr) stmt(s ast.Stmt) string {
 			case fun == "vt.postEvent" && len(call.Args) == 1:
 				return ".post"
 			case fun == "vt.pty.WriteString" && len(call.Args) == 1 && t.respVar != "" && t.src(call.Args[0]) == t.respVar:
-				return ".reply"
+				return "(.reply .sendResp)"
 			case fun == "vt.vx.ClipboardPush" && len(call.Args) == 1 && t.decVar != "" && t.src(call.Args[0]) == "string("+t.decVar+")":
 				return ".clipPush"
 			}
@@ -1681,9 +1725,15 @@ func (t *btr) stmt(s ast.Stmt) string {
 			case fun == "vt.postEvent":
 				return ".post"
 			case t.respVar != "" && fun == t.respVar+".WriteString" && argIsLit:
-				return ".reply"
-			case fun == "vt.pty.WriteString" && (argIsLit || (t.respVar != "" && (arg == t.respVar || arg == t.respVar+".String()"))):
-				return ".reply"
+				if l, ok := replyLit(call.Args[0]); ok {
+					return "(.reply (.append " + l + "))"
+				}
+			case fun == "vt.pty.WriteString" && argIsLit:
+				if l, ok := replyLit(call.Args[0]); ok {
+					return "(.reply (.sendLit " + l + "))"
+				}
+			case fun == "vt.pty.WriteString" && t.respVar != "" && (arg == t.respVar || arg == t.respVar+".String()"):
+				return "(.reply .sendResp)"
 			}
 		}
 		if fun == "log.Error" && len(call.Args) == 1 {
@@ -1693,16 +1743,8 @@ func (t *btr) stmt(s ast.Stmt) string {
 		}
 		// fmt.Fprintf(vt.pty, …): a reply to the child, no state change (arguments must be in the language)
 		if fun == "fmt.Fprintf" && len(call.Args) >= 2 && t.src(call.Args[0]) == "vt.pty" && len(t.loops) == 0 {
-			if _, isStr := call.Args[1].(*ast.BasicLit); isStr {
-				good := true
-				for _, a := range call.Args[2:] {
-					if _, ok := t.expr(a); !ok {
-						good = false
-					}
-				}
-				if good {
-					return ".reply"
-				}
+			if f, xs, good := t.replyFmt(call.Args[1], call.Args[2:]); good {
+				return "(.reply (.fprintf " + f + " " + xs + "))"
 			}
 		}
 		// resize(): vt.print(ansi.Print{Grapheme: cell.Character.Grapheme, Width: cell.Character.Width})
